@@ -6,6 +6,7 @@ mod chal;
 mod core;
 mod bus;
 mod gprog;
+mod layers;
 mod opsat;
 mod pipe;
 mod rec;
@@ -70,7 +71,9 @@ fn main() {
         "C14" => props::c14::main(&ctx),
         "C15" => props::c15::main(&ctx),
         "C16" => props::c16::main(&ctx),
+        "C17" => props::c17::main(&ctx),
         "C18" => props::c18::main(&ctx),
+        "C19" => props::c19::main(&ctx),
         _ => {
             eprintln!("unknown property {prop}");
             2
